@@ -11,6 +11,8 @@ argument of every op selects it.
   field   <cfg> <Type> <i>                      <name> aligned=<off> packed=<off> asize=<n> psize=<n> | none
   probe   <cfg> <fn>                            stride=<n|-> offs=<off>+<size>,...   (distinct, sorted)
   upd     <cfg> <fn> <uid> <val> <file>         <file'> | ERR
+  updrec  <cfg> <uid> <record> <file>           <file'> | ERR      (cmbbs.PasswdUpdate)
+  offconst <cfg> <NAME>                         <Type>.<Field>=<n> | none   (constants defined as unsafe.Offsetof)
   qry     <cfg> <fn> <uid> <file>               <val> | ERR
   qryrec  <cfg> <uid> <file>                    <record> | ERR
   lvl2    <cfg> <ver> <perm> <0|1> <ts> <file|absent>   <file'> | ERR
@@ -74,6 +76,14 @@ def stepC01 (_ : Unit) (ws : List String) : Unit × String :=
           match parseInt uid, parseHex val, parseHex file with
           | some u, some v, some f => showOpt (passwdWrite c fn f u v)
           | _, _, _ => "bad-op"
+        | "updrec", [uid, r, file] =>
+          match parseInt uid, parseHex r, parseHex file with
+          | some u, some v, some f => showOpt (passwdUpdate c f u v)
+          | _, _, _ => "bad-op"
+        | "offconst", [n] =>
+          match c.offsetConsts.lookup n with
+          | some (ty, fld, v) => s!"{ty}.{fld}={v}"
+          | none => "none"
         | "qry", [fn, uid, file] =>
           match parseInt uid, parseHex file with
           | some u, some f => showOpt (passwdRead c fn f u)
